@@ -5,9 +5,10 @@ Helper lemmas: InToto/Proofs/PipeInspect.lean.
 -/
 import InToto.Model.Verify
 import InToto.Proofs.PipeInspect
+import InToto.Proofs.Pipeline
 
 namespace InToto.C09
-open InToto InToto.Verify InToto.PipeProofs
+open InToto InToto.Verify InToto.PipeProofs InToto.PipelineProofs InToto.Json InToto.Schema InToto.Metadata
 
 /-- C09 (layout order): whatever happens, the commands that were run are a PREFIX of the layout's
     inspection list, appended to what was run before (sublayouts) — never out of order, none skipped. -/
@@ -62,5 +63,42 @@ theorem unstartable_command_fails (W : World) (rd : Str) (i : Inspection) (rest 
     | nil => exact absurd hr hne
     | cons a t => rfl
   simp [runInspections, this, h, Outcome.isOk]
+
+/-- C09 AT PIPELINE LEVEL: when a level accepts, the commands it reports are what ran before and in
+    sublayouts, followed by EXACTLY all of its own inspections in layout order; each of them could be
+    started and exited with status 0 -/
+theorem acceptance_implies_all_inspections_ran (W : World) (ln : Bool) (ci : List Str) (fuel : Nat) (md : Md)
+    (keys : List (Str × Key)) (dir : Dir) (sn : Str) (params : List (Str × Str)) (rd : RunDirState) (acc : Acc)
+    (s : Summary) (h : (verifyAux W ln ci (fuel + 1) md keys dir sn params rd acc).out = .ok s) :
+    ∃ lay mid, Admitted W ci md keys params rd lay ∧
+      (verifyAux W ln ci (fuel + 1) md keys dir sn params rd acc).ran = mid ++ (layoutInspections lay).map cmdOf ∧
+      ∀ i ∈ layoutInspections lay, i.run ≠ [] ∧ (W.exec i.run).started = true ∧ (W.exec i.run).exit = 0 :=
+  accept_implies_inspections_ran W ln ci fuel md keys dir sn params rd acc s h
+
+/-- C09: whatever the outcome of the last stage, what it ran is a prefix of the inspection list,
+    after what ran before -/
+theorem last_stage_runs_a_prefix (W : World) (rd : RunDirState) (sn : Str) (lay : TVal)
+    (res : List (Step × List (Str × LinkView))) (acc1 : Acc) :
+    ∃ k, (finishStage W rd sn lay res acc1).ran = acc1.ran ++ ((layoutInspections lay).take k).map cmdOf :=
+  finishStage_ran_prefix W rd sn lay res acc1
+
+/-- C09 ("their rules checked against the real directory"): the last stage accepts exactly when
+    every step has counted links that agree, the step rules hold, every inspection ran with status 0
+    and the inspection rules hold over the links the inspections just recorded -/
+theorem last_stage_accepts_iff (W : World) (rd : RunDirState) (sn : Str) (lay : TVal)
+    (res : List (Step × List (Str × LinkView))) (acc1 : Acc) (s : Summary) :
+    (finishStage W rd sn lay res acc1).out = .ok s ↔
+      (∀ sl ∈ res, sl.2 ≠ []) ∧
+      ∃ red ctx1,
+        reduceAll res = .ok red ∧
+        Rules.verifyArtifacts Rules.goGlob
+          ((layoutSteps lay).map fun st => toRulesItem st.name st.expMaterials st.expProducts) (stepCtx red) = .ok ctx1 ∧
+        (runInspections W (runDirOf rd) (layoutInspections lay) { fs := acc1.fs, ran := acc1.ran, links := [] }).1 = .ok () ∧
+        (Rules.verifyArtifacts Rules.goGlob
+          ((layoutInspections lay).map fun i => toRulesItem i.name i.expMaterials i.expProducts)
+          (inspCtx ctx1 (runInspections W (runDirOf rd) (layoutInspections lay)
+            { fs := acc1.fs, ran := acc1.ran, links := [] }).2.links)).isOk = true ∧
+        s = summaryOf (layoutSteps lay) red sn :=
+  finishStage_ok_iff W rd sn lay res acc1 s
 
 end InToto.C09
